@@ -5,6 +5,7 @@ package symgo
 import (
 	"fmt"
 	"go/types"
+	"strings"
 )
 
 const VerifPkg = "github.com/fido-device-onboard/go-fdo/internal/verif"
@@ -132,6 +133,77 @@ func registerVerifAPI(m *Machine) {
 	N[P+"Fresh"] = func(m *Machine, fr *Frame, a []Value) Value {
 		n := int(m.concInt(a[1].(*Term), "fresh length"))
 		return mkByteSlice(m.freshBytes(strArg(a[0]), n, "rand"))
+	}
+	// MustBeFeasible(cond, label): violation if cond cannot hold on this path.
+	N[P+"MustBeFeasible"] = func(m *Machine, fr *Frame, a []Value) Value {
+		c := a[0].(*Term)
+		label := strArg(a[1])
+		x := m.X
+		p := m.P
+		if p.concrete != nil {
+			if c.IsFalse() {
+				x.viol[label] = &Violation{Harness: x.fn.Name(), Class: label, Label: label, Kind: "assert"}
+			}
+			return nil
+		}
+		if p.replaying() {
+			return nil
+		}
+		x.R.Obligations++
+		switch m.feasible(c) {
+		case Sat:
+			x.R.Discharged++
+		case Unsat:
+			if _, dup := x.viol[label]; !dup {
+				v := &Violation{Harness: x.fn.Name(), Class: label, Label: label, Kind: "assert", PathLen: len(p.decisions), Site: fr.fn.String(), Detail: "required possibility is infeasible"}
+				if m.S.Check() == Sat {
+					v.Model, v.Widths = x.model(p)
+				} else {
+					v.Model = map[string]string{}
+				}
+				x.viol[label] = v
+			}
+		default:
+			x.R.Inconclusive = appendUniq(x.R.Inconclusive, "feasibility "+label+": solver unknown")
+		}
+		return nil
+	}
+	// IsFreshRandom(b): every byte is a distinct symbol produced by the randomness model.
+	N[P+"IsFreshRandom"] = func(m *Machine, fr *Frame, a []Value) Value {
+		if m.P.concrete != nil {
+			return TrueT
+		}
+		seen := map[*Term]bool{}
+		for _, c := range a[0].(Slice).A {
+			t := c.(*Term)
+			if t.Op != OpVar || !strings.HasPrefix(t.Name, "rand") || seen[t] {
+				return FalseT
+			}
+			seen[t] = true
+		}
+		return Bool(len(seen) > 0)
+	}
+	// FreeOf(wire, secret): no symbol of secret occurs in wire.
+	N[P+"FreeOf"] = func(m *Machine, fr *Frame, a []Value) Value {
+		if m.P.concrete != nil {
+			return TrueT
+		}
+		sv := map[*Term]bool{}
+		seen := map[*Term]bool{}
+		for _, c := range a[1].(Slice).A {
+			c.(*Term).Vars(sv, seen)
+		}
+		wv := map[*Term]bool{}
+		seen = map[*Term]bool{}
+		for _, c := range a[0].(Slice).A {
+			c.(*Term).Vars(wv, seen)
+		}
+		for v := range sv {
+			if wv[v] {
+				return FalseT
+			}
+		}
+		return TrueT
 	}
 	N[P+"AllocBytes"] = func(m *Machine, fr *Frame, a []Value) Value { return Const(64, uint64(m.P.allocBytes)) }
 	N[P+"ResetAlloc"] = func(m *Machine, fr *Frame, a []Value) Value { m.P.allocBytes = 0; return nil }
